@@ -913,13 +913,16 @@ class DefaultDialect(Dialect):
                 )
 
         dbapi_connection = connection.connection.dbapi_connection
+        # register the reset before changing anything, so that the
+        # characteristics are restored on checkin also when setting them is
+        # interrupted part way (e.g. by an asyncio cancellation)
+        connection.connection._connection_record.finalize_callback.append(
+            functools.partial(self._reset_characteristics, characteristics)
+        )
         for _, characteristic, value in characteristic_values:
             characteristic.set_connection_characteristic(
                 self, connection, dbapi_connection, value
             )
-        connection.connection._connection_record.finalize_callback.append(
-            functools.partial(self._reset_characteristics, characteristics)
-        )
 
     def _reset_characteristics(self, characteristics, dbapi_connection):
         for characteristic_name in characteristics:
